@@ -2,12 +2,14 @@ package sys
 
 import (
 	"bytes"
+	"encoding/hex"
 	"encoding/json"
 	"fmt"
 	"regexp"
 	"strings"
 
 	abci "github.com/cometbft/cometbft/abci/types"
+	tmbytes "github.com/cometbft/cometbft/libs/bytes"
 	cmtproto "github.com/cometbft/cometbft/proto/tendermint/types"
 	sdk "github.com/cosmos/cosmos-sdk/types"
 
@@ -15,6 +17,7 @@ import (
 	htlctypes "mods.irisnet.org/modules/htlc/types"
 	"mods.irisnet.org/modules/oracle"
 	"mods.irisnet.org/modules/random"
+	randomtypes "mods.irisnet.org/modules/random/types"
 	"mods.irisnet.org/modules/service"
 
 	"verif/sim/engine"
@@ -356,6 +359,73 @@ func (m *Exporter) roundTripFrom(w *engine.World, prep bool, when string, servic
 					"after re-import (%s export of height %d) the query %q answers differently: %s", variant, h, kv.K, strDiff(kv.V, got))
 				break
 			}
+		}
+	}
+	if prep {
+		prepPreserves(w, w.Node, tgt, h)
+	}
+}
+
+// prepPreserves (zero-height variant): the modules' own preparation step rebases heights
+// and closes what is in flight; what users rely on must still come back. The comparison
+// above is between the prepared source and the target, so a preparation step that itself
+// drops or rewrites something is invisible there. Here the chain as it was before the
+// preparation is compared with the re-imported one, with the one documented change (heights
+// count from the restart) applied:
+//   - htlc asset supplies (current / incoming / outgoing supply, the running limit period
+//     and what was completed in it): identical;
+//   - every open hash-locked contract: identical but for its expiration height, which is
+//     rebased to expiration - h + 1;
+//   - every pending random request: the same request id (the id its consumer holds), the
+//     same request, due at height - h + 1.
+func prepPreserves(w *engine.World, orig, tgt *engine.Node, h int64) {
+	w.Hit("C12.prep_preserves_checks")
+	octx, tctx := orig.Ctx(), tgt.Ctx()
+	// htlc supplies
+	a, errA := orig.K.HTLC.AssetSupplies(octx, &htlctypes.QueryAssetSuppliesRequest{})
+	b, errB := tgt.K.HTLC.AssetSupplies(tctx, &htlctypes.QueryAssetSuppliesRequest{})
+	if errA == nil && errB == nil && a.String() != b.String() {
+		w.Violate("C12", "prep-loses/htlc-supplies", "after the zero-height preparation of the state of height %d, export and re-import, the asset supplies differ from the chain's before the preparation: %s", h, strDiff(a.String(), b.String()))
+	}
+	// open contracts
+	open := func(n *engine.Node, ctx sdk.Context, rebase bool) map[string]string {
+		out := map[string]string{}
+		n.K.HTLC.IterateHTLCs(ctx, func(id tmbytes.HexBytes, c htlctypes.HTLC) bool {
+			if c.State == htlctypes.Open {
+				if rebase {
+					c.ExpirationHeight = c.ExpirationHeight - uint64(h) + 1
+				}
+				out[id.String()] = c.String()
+			}
+			return false
+		})
+		return out
+	}
+	oa, ob := open(orig, octx, true), open(tgt, tctx, false)
+	for _, id := range engine.SortedKeys(oa) {
+		if ob[id] != oa[id] {
+			w.Violate("C12", "prep-loses/htlc-contract", "open contract %s of the state of height %d after zero-height preparation, export and re-import: %s", id, h, strDiff(oa[id], ob[id]))
+			break
+		}
+	}
+	// pending random requests
+	pend := func(n *engine.Node, ctx sdk.Context, shift int64) map[string]string {
+		out := map[string]string{}
+		n.K.Random.IterateRandomRequestQueue(ctx, func(height int64, reqID []byte, r randomtypes.Request) bool {
+			out[hex.EncodeToString(reqID)] = fmt.Sprintf("due %d %s", height-shift, r.String())
+			return false
+		})
+		return out
+	}
+	ra, rb := pend(orig, octx, h-1), pend(tgt, tctx, 0)
+	for _, id := range engine.SortedKeys(ra) {
+		if rb[id] != ra[id] {
+			got := rb[id]
+			if got == "" {
+				got = "(no pending request under this id)"
+			}
+			w.Violate("C12", "prep-loses/random-request", "pending random request %s of the state of height %d after zero-height preparation, export and re-import: before %q, after %q", id, h, ra[id], got)
+			break
 		}
 	}
 }
